@@ -5,8 +5,27 @@ import re, os
 from . import impl, coqrun
 
 
+def one_case(cases, i):
+    """the text of case i.  A case may ask to be evaluated a SECOND time (case['wrap']): the expression sits in a mixin that is first
+    called with other arguments, or in a variable that is first used where its operands have other values; the value observed is the
+    one of rule .c<i>, which must not depend on the earlier evaluation."""
+    c = cases[i]
+    prop = c.get('prop', 'color')
+    w = c.get('wrap')
+    if not w:
+        return '.c%d{%s:%s}' % (i, prop, c['expr'])
+    names = ['@w%dx%d' % (i, k) for k in range(len(w['real']))]
+    expr = w['expr_fmt'].format(*names)
+    if w['kind'] == 'mixin':
+        return ('.mw%d(%s){%s:%s}\n.dw%d{.mw%d(%s);}\n.c%d{.mw%d(%s);}'
+                % (i, '; '.join(names), prop, expr, i, i, '; '.join(w['decoy']), i, i, '; '.join(w['real'])))
+    return (''.join('%s: %s;\n' % (n, v) for n, v in zip(names, w['real'])) + '@e%d: %s;\n' % (i, expr)
+            + '.dw%d{%s%s:@e%d}\n' % (i, ''.join('%s: %s; ' % (n, v) for n, v in zip(names, w['decoy'])), prop, i)
+            + '.c%d{%s:@e%d}' % (i, prop, i))
+
+
 def sheet(cases, idxs):
-    return '\n'.join('.c%d{%s:%s}' % (i, cases[i].get('prop', 'color'), cases[i]['expr']) for i in idxs) + '\n'
+    return '\n'.join(one_case(cases, i) for i in idxs) + '\n'
 
 
 def split_sheet(css):
@@ -75,7 +94,7 @@ def correspond(ctx, cases, mods, pool=None, batch=40, prelude=''):
     for i, c in enumerate(cases):
         s_bad = i in bad['s'][0]
         m_bad = ('m' in bad) and i in bad['m'][0]
-        rec = {'input': {'expr': c['expr'], 'prop': c.get('prop', 'color'), 'prelude': prelude},
+        rec = {'input': {'expr': c['expr'], 'prop': c.get('prop', 'color'), 'prelude': prelude, 'sheet': one_case(cases, i), 'index': i},
                'impl': answers[i], 'classes': c.get('classes', []), 'descr': c.get('descr', '')}
         if s_bad:
             rec['spec'] = bad['s'][1].get(i)
